@@ -399,7 +399,7 @@ func init() {
 	Register(&Engine{
 		Prop: "C14", Name: "storesim", Run: runC14,
 		Trials: map[string]int{"quick": 20000, "thorough": 300000},
-		Rule:   "histories of 2-11 operations (namespace ops and I/O on a handle that may have been opened before the fault) on keyvalue.FS over a plain SimStore in both flavours (serial fallback transaction) and over the real in-memory TransactionStore behind a fault-injecting wrapper; one store fault per trial, its position drawn over the store call indices of the history and its kind over Get / rejected Set / Set applied but reported failed / lazy Data() / lazy ReadDirNames() / Transaction(); a fault-free twin runs in lockstep; judged: rejected write => error; failed read-side call => error, or result and store contents identical to the twin's; no panic; no hang (single scheduler task with lock gates: a store left locked is a deadlock verdict); after the fault every candidate path's Stat/ReadFile agrees with what the store holds; non-trivial = the fault fired inside an operation; distinct = event-log hash",
+		Rule:   "histories of 2-11 operations (namespace ops and I/O on a handle that may have been opened before the fault) on keyvalue.FS over a plain SimStore in both flavours (serial fallback transaction) and over the real in-memory TransactionStore behind a fault-injecting wrapper; one store fault per trial, its position drawn over the store call indices of the history and its kind over Get / rejected Set / Set applied but reported failed / lazy Data() / lazy ReadDirNames() / Transaction(); a fault-free twin runs in lockstep; judged: rejected write => error; failed read-side call => error, or result and store contents identical to the twin's; no panic; no hang (single scheduler task with lock gates: a store left locked is a deadlock verdict); after the fault every candidate path's Stat/ReadFile agrees with what the store holds; non-trivial = the fault fired inside an operation; distinct = event-log hash Faults also at Commit (results together with an error) and as a Get that answers ErrNotExist for a record that is there; a failed Chmod/Chtimes/handle Chmod/handle Truncate is retried without the fault and has to go through as on the twin; after a fault, what a handle holds is compared with what the name yields after later successful writes; the store comparison includes permission bits and Chtimes-set times.",
 		Components: map[string][]string{
 			"real": {"keyvalue.FS, file, record", "keyvalue serial fallback transaction", "mem store + transactions (third stack)"},
 			"stub": {"SimStore (plain store)", "fault-injecting wrapper around the in-memory store"},
